@@ -182,6 +182,26 @@ def run_unary(ctx, pt):
                                 ctx.attempt(lambda: X.__setitem__(slice(st, sp, step), wide))
                                 ctx.ok('C16/setitem-slice/coefficient-outside-the-ring', all(0 <= c <= m for c in X.ival) and X.size == k, val(X))
                         ctx.eq('C16/setitem-slice-poly', ctx.attempt(f2), ('ok', ((na, k), (list(v), k))))
+    # a Bits value (what e(i) and iteration hand out) denotes its integer: assigning it through any selector gives what
+    # assigning that integer gives - whatever number of coefficients the selector addresses (differential: the statement
+    # does not say what a scalar assigned to several coefficients means)
+    from crysp.bits import Bits
+    sels = [i for i in range(-d, d)] + [slice(st, sp, step) for st in range(d) for sp in range(st + 1, d + 1) for step in (None, 2)]
+    if d <= 4:
+        sels += [list(t) for ln in (1, 2, 3, 4) for t in itertools.product(range(d), repeat=ln) if len(set(t)) == ln][:64]
+    for sel in sels:
+        for w in (1, 2, 3, 4, 8):
+            for v in sorted({1, (1 << w) - 1, (1 << (w - 1)) | 1}):
+                def fb():
+                    X = P_(a, k)
+                    X[sel] = Bits(v, w)
+                    return val(X)
+
+                def fi():
+                    X = P_(a, k)
+                    X[sel] = v
+                    return val(X)
+                ctx.eq('C16/setitem/bits-scalar-differs-from-the-same-integer', ctx.attempt(fb), ctx.attempt(fi))
     if d <= 4:
         for ln in range(1, 4):
             for idx in itertools.product(range(d), repeat=ln):
@@ -274,12 +294,19 @@ class PolySys(HSystem):
     def __init__(self, k, d):
         self.k, self.d = k, d
 
+    def qs(self):
+        m = (1 << self.k) - 1
+        return [[m] * self.d, [1] + [0] * (self.d - 1), [m] * (self.d - 1), [0] * self.d + [m]]
+
     def fresh(self):
         p = P_([0] * self.d, self.k)
-        return {'p': p, 'model': [0] * self.d, 'alias': None}
+        return {'p': p, 'model': [0] * self.d, 'alias': None, 'q': [P_(q, self.k) for q in self.qs()]}
 
     def canon(self, o):
-        return tuple(o['p'].ival)
+        # everything the live objects carry (memoised attributes included), not only the coefficients: an operator that
+        # leaves something behind in its operands leads to a new state, which is then explored further
+        from mc.engine import canon as gcanon
+        return (gcanon(o['p']), gcanon(o['q']))
 
     def events(self, o):
         ev = []
@@ -298,12 +325,29 @@ class PolySys(HSystem):
         for idx in itertools.product(range(self.d), repeat=2):
             for v in ((1, 2), (3, 0)):
                 ev.append(('list', idx, v))
+        for idx in ((-1, 0), (0, -1), (-1, -2)):
+            ev.append(('list', idx, (1, (1 << self.k) - 1)))
+        for op in sorted(OPS):
+            for qi in range(len(self.qs())):
+                ev.append(('op', op, qi))
+        ev += [('unary', 'neg'), ('unary', 'lshift'), ('unary', 'rshift'), ('unary', 'read')]
         return ev
 
     def apply(self, o, ev):
         p = o['p']
         m = o['model']
         o['alias'] = (p[0:self.d], list(m))
+        if ev[0] == 'op':
+            q = o['q'][ev[2]]
+            return (val(apply_op(ev[1], p, q)), val(apply_op(ev[1], q, p)))
+        if ev[0] == 'unary':
+            if ev[1] == 'neg':
+                return val(-p)
+            if ev[1] == 'lshift':
+                return val(p << 1)
+            if ev[1] == 'rshift':
+                return val(p >> 1)
+            return ([int(x) for x in p], val(p[0:self.d:2]), val(p[[self.d - 1, 0]]), [val(p[i]) for i in range(-self.d, self.d)])
         if ev[0] == 'int':
             p[ev[1]] = ev[2]
             m[ev[1]] = ev[2]
@@ -318,6 +362,21 @@ class PolySys(HSystem):
         return list(p.ival)
 
     def judge(self, ctx, hist, ev, res, o):
+        k, d, a = self.k, self.d, o['model']
+        mk = (1 << k) - 1
+        if ev[0] == 'op':
+            q = self.qs()[ev[2]]
+            n = max(d, len(q))
+            x, y = a + [0] * (n - d), q + [0] * (n - len(q))
+            f = OPS[ev[1]]
+            ctx.eq('C16/history/operator-%s' % ev[1], res, ('ok', (([f(u, v, mk) for u, v in zip(x, y)], k), ([f(v, u, mk) for u, v in zip(x, y)], k))))
+            ctx.eq('C16/history/operator-changed-an-operand', (val(o['p']), [val(t) for t in o['q']]), ((a, k), [(t, k) for t in self.qs()]))
+            return
+        if ev[0] == 'unary':
+            exp = {'neg': ([(-u) & mk for u in a], k), 'lshift': ([(u << 1) & mk for u in a], k), 'rshift': ([u >> 1 for u in a], k),
+                   'read': (a, (a[0:d:2], k), ([a[d - 1], a[0]], k), [([a[i]], k) for i in range(-d, d)])}[ev[1]]
+            ctx.eq('C16/history/%s' % ev[1], res, ('ok', exp))
+            return
         ctx.eq('C16/history/setitem-%s' % ev[0], res, ('ok', o['model']))
         al, am = o['alias']
         ctx.ok('C16/history/alias-changed', list(al.ival) == am, (list(al.ival), am))
@@ -333,11 +392,11 @@ def subchecks():
         Sub('binary', pts_binary, run_binary, engine='D',
             bound='every ordered pair of vectors over Z/2^k: k=1 dims 0..5, k=2 dims 0..3, k=3 dims 0..2 (thorough: 0..6, 0..4, 0..3, plus every k=3 dim-4 vector against every vector of dim<=2 in both orders): + - ^ & | //'),
         Sub('unary-index', pts_unary, run_unary, engine='D',
-            bound='every vector up to one dimension more than above: neg, a+(-a), shifts 0..k+1, every int index, every in-range slice (step None/1/2), every index list of length<=3; reads and writes'),
+            bound='every vector up to one dimension more than above: neg, a+(-a), shifts 0..k+1, every int index, every in-range slice (step None/1/2), every index list of length<=3; reads and writes; a Bits scalar of width 1,2,3,4,8 through every selector equals the same integer assigned'),
         Sub('integers-ring', pts_zring, run_zring, engine='D', bound='k=0: dims 0..2 over a small signed alphabet, all pairs'),
         Sub('split-pack', pts_chunks, run_chunks, engine='P', exhaustive=False,
             bound='k in {8,16,24,32,64} (+40,48,56): dims 0..3 over a 6-value alphabet; split to every dividing size, both endiannesses, pack'),
-        hsub('assignment-histories', systems, 12, bound='one live Poly, all p[idx]=v forms, BFS to the fixpoint'),
+        hsub('assignment-histories', systems, 12, bound='one live Poly p and four fixed operands (full, trailing zeros, shorter, longer): all p[idx]=v forms (negative indices and index lists included) interleaved with + - ^ & | in both operand orders, neg, shifts and reads; state = everything the live objects carry; BFS to the fixpoint'),
     ]
 
 
